@@ -373,6 +373,10 @@ def answerRoute (r : Route) : Json :=
 /-- a command of a history: `route` for a construction, `do` for an operation on `src` (a store index) -/
 def parseCmd (j : Json) : Except String Cmd :=
   match opt j "route" with
+  | some (.str "fromScalars") => do
+    let cls ← asCls (← j.getObjVal? "cls")
+    let scalars ← (← getArr j "scalars").toList.mapM parseScalar
+    pure (.fromScalars cls scalars (← optSym j "unit") (← optSym j "category"))
   | some (.str kind) => do pure (.make (← parseRoute kind j))
   | some _ => .error "route must be a string"
   | none =>
